@@ -284,6 +284,7 @@ def bounded(tier, seed, R):
     wbs = _c08_workbooks(rnd, 8 if not thorough else 24, W)
     R.bound = f'{len(wbs)} workbooks x <=6 (inputs, outputs) choices x 2 origins x 2 (pre-evaluated or not) x 3 assignments'
     pool = [0, 1, -3, 2.5, 10, 100]
+    _iterative_cases(R, W)
     with W.TmpDir() as tmp:
         for wi, wb in enumerate(wbs):
             ins = [c for c in wb.inputs if isinstance(wb.inputs[c], (int, float)) and not isinstance(wb.inputs[c], bool)]
@@ -358,6 +359,35 @@ def bounded(tier, seed, R):
                                 return True
                             if R.guard('bounded/save_load_runs', reload, dict(w, fmt=fmt)):
                                 compare(st['loaded'], 'after_save_load')
+
+
+def _iterative_cases(R, W):
+    """trim_graph on a model with iterative calculation: a cycle that feeds an output but does not depend on an input is
+    frozen to the value the iteration settles at, also when nothing was evaluated before the trim"""
+    cases = [W.WB({'A1': 5}, {'C1': '=MIN(D1+1,5)', 'D1': '=C1', 'B1': '=A1+C1'}, 'settling-cycle'),
+             W.WB({'A1': 2, 'K1': 1}, {'C1': '=0.5*D1+K1', 'D1': '=0.5*C1+1', 'B1': '=A1*2+ROUND(C1,3)'}, 'contracting-cycle')]
+    for wb in cases:
+        for pre in (False, True):
+            w = {'workbook': repr(wb), 'iterative': True, 'pre_evaluated': pre}
+
+            def chk():
+                ref = W.compile_mem(wb, cycles=True)
+                comp = W.compile_mem(wb, cycles=True)
+                kw = dict(iterations=200, tolerance=1e-9)
+                if pre:
+                    comp.evaluate('S!B1', **kw)
+                comp.trim_graph(['S!A1'], ['S!B1'])
+                ok = True
+                for v in (5, 0, 10):
+                    for m in (ref, comp):
+                        m.evaluate('S!A1', **kw)
+                        m.set_value('S!A1', v)
+                    a, b = ref.evaluate('S!B1', **kw), comp.evaluate('S!B1', **kw)
+                    if not (isinstance(b, (int, float)) and abs(a - b) <= 1e-6):
+                        w['disagreement'] = (v, a, b)
+                        ok = False
+                return ok
+            R.guard('bounded/outputs_agree_after_trim', chk, w)
 
 
 def _precedents(W, wb, cell):
